@@ -23,7 +23,7 @@
 From Coq Require Import QArith Qcanon List String Bool.
 Import ListNotations.
 From S2 Require Import Base.Num Base.Arr Model.Expr Model.Struct Model.Rates Model.Solvers Spec.RatesSpec
-     Proofs.NumQc Proofs.BuildProofs Proofs.CopiesProofs Proofs.AggregateProofs Proofs.InvarianceProofs Proofs.Assembly Proofs.SameKeys Proofs.AgeAssembly Proofs.TimeShift Proofs.Scaling Proofs.AggregateRates Proofs.AggregateModel Proofs.AggregateTotals Proofs.AggregateAll Model.Program Props.Examples.
+     Proofs.NumQc Proofs.BuildProofs Proofs.CopiesProofs Proofs.AggregateProofs Proofs.InvarianceProofs Proofs.Assembly Proofs.SameKeys Proofs.AgeAssembly Proofs.TimeShift Proofs.Scaling Proofs.AggregateRates Proofs.AggregateModel Proofs.AggregateTotals Proofs.AggregateAll Proofs.RatesBridge Proofs.AggregateFinal Model.Program Props.Examples.
 
 (* the copies of an unadjusted stratification carry the parent's weight, or the parent's weight
    divided by the number of strata for entry flows, destination-only stratified transitions
@@ -134,6 +134,30 @@ Theorem C03_noninfection_models :
 Proof. intros O T. exact (noninfection_model_aggregates O T). Qed.
 Print Assumptions C03_noninfection_models.
 
+(* ... and in terms of the functions the runner executes (get_comp_rates of the two models, with their own index
+   arithmetic): at every non-negative state x' of the stratified model, the compartment rates summed over the copies of
+   the i-th compartment are the rate of the i-th compartment of the unstratified model at the aggregated state.
+   (get_comp_rates counts negative entries as zero before anything else, and clipping does not commute with summation:
+   hence "non-negative"; C01's per-flow theorem flow_rate_nth identifies each model's rates with the laws.) *)
+Theorem C03_comp_rates_aggregate :
+  forall (O : NumOps) (T : NumTheory O) t0 t1 h comps inf ops (m : model) (s0 : strat) (m' : model) (b b' : backend),
+    build_ok t0 t1 h comps inf ops = Some m -> NoDup (m_comps m) ->
+    stratify_with m s0 = Ok m' ->
+    prepare_structural m = Ok b -> prepare_structural m' = Ok b' ->
+    NoDup (s_strata (normalise_strat s0)) -> s_strata (normalise_strat s0) <> [] ->
+    is_strain (s_kind (normalise_strat s0)) = false -> s_fadj (normalise_strat s0) = [] ->
+    (is_age (s_kind (normalise_strat s0)) = true ->
+     List.length (filter (fun st => String.eqb st "0") (s_strata (normalise_strat s0))) = 1%nat) ->
+    (forall f, In f (m_flows m) -> ni_flow f) ->
+    forall (p : env O) (t : F O) (x' : list (F O)), List.length x' = List.length (m_comps m') ->
+    Forall (fun v => fle O T (f0 O) v) x' ->
+    forall i dflt, (i < List.length (m_comps m))%nat ->
+      fsum O (map (fun c' => nth (comp_index (m_comps m') c') (get_comp_rates O m' b' p t x') (f0 O))
+                  (group (normalise_strat s0) (nth i (m_comps m) dflt)))
+      = nth i (get_comp_rates O m b p t (aggx O (normalise_strat s0) (m_comps m) x')) (f0 O).
+Proof. intros O T. exact (stratified_comp_rates_aggregate O T). Qed.
+Print Assumptions C03_comp_rates_aggregate.
+
 (* non-vacuity: in the example model the two copies of the replacement-birth flow carry weight 1/2
    each (entry flow into a newly stratified destination) and the universal-death copies keep 1/64 *)
 Example C03_nonvacuous :
@@ -191,7 +215,13 @@ Definition ni_flow_b (f : flow) : bool :=
 Example C03_noninfection_nonvacuous :
   match Model.Program.build_ok 0 2 (1#2) ["S"; "I"; "R"]%string ["I"]%string frac_ops with
   | Some m0 => forallb ni_flow_b (m_flows m0) = true /\ List.length (m_flows m0) = 7%nat
-               /\ (exists m1, stratify_with m0 frac_strat = Ok m1 /\ List.length (m_comps m1) = 7%nat /\ List.length (m_flows m1) = 19%nat)
+               /\ NoDup (m_comps m0) /\ (exists b0, prepare_structural m0 = Ok b0)
+               /\ (exists m1, stratify_with m0 frac_strat = Ok m1 /\ List.length (m_comps m1) = 7%nat /\ List.length (m_flows m1) = 19%nat
+                              /\ exists b1, prepare_structural m1 = Ok b1)
   | None => False
   end.
-Proof. vm_compute. split; [reflexivity|]. split; [reflexivity|]. eexists. repeat split. Qed.
+Proof.
+  vm_compute. split; [reflexivity|]. split; [reflexivity|].
+  split; [repeat constructor; cbn; intuition discriminate|].
+  split; [eexists; reflexivity|]. eexists. split; [reflexivity|]. split; [reflexivity|]. split; [reflexivity|]. eexists; reflexivity.
+Qed.
